@@ -1,6 +1,6 @@
 (** Dispatch table used by the extracted runner: property number -> model runner / monitor. *)
 From RRE Require Import Base.Sx.
-From RRE Require Model.Watermark Model.Tms Model.ProofGraph Model.Undo Model.Module Model.Window Model.Join Model.KB Model.Index Model.State Model.ReteAgenda Model.EngineConc Model.Parallel Model.Incremental Model.ExprShape Model.ForwardSpec Model.Grl.
+From RRE Require Model.Watermark Model.Tms Model.ProofGraph Model.Undo Model.Module Model.Window Model.Join Model.KB Model.Index Model.State Model.ReteAgenda Model.EngineConc Model.Parallel Model.Incremental Model.ExprShape Model.ForwardSpec Model.Grl Model.Backward.
 Open Scope Z_scope.
 
 Definition run_by_id (id : Z) (c : sx) : sx :=
@@ -13,7 +13,9 @@ Definition run_by_id (id : Z) (c : sx) : sx :=
   | 6 => Incremental.run_sx c
   | 7 => ReteAgenda.run_sx c
   | 8 => Tms.run_sx c
-  | 10 => Undo.run_sx c
+  | 9 => Backward.run_sx c
+  | 11 => Backward.run_sx c
+  | 10 => match c with L [A 1; bc] => Backward.run_sx bc | _ => Undo.run_sx c end
   | 12 => Window.run_sx c
   | 13 => Watermark.run_sx c
   | 14 => Join.run_sx c
@@ -40,7 +42,9 @@ Definition ok_by_id (id : Z) (c o : sx) : Z :=
   | 6 => b2z (Incremental.ok_sx c o)
   | 7 => b2z (ReteAgenda.ok_sx c o)
   | 8 => b2z (Tms.ok_sx c o)
-  | 10 => b2z (Undo.ok_sx c o)
+  | 9 => b2z (Backward.ok_sx c o)
+  | 11 => b2z (Backward.ok_sx c o)
+  | 10 => match c with L [A 1; bc] => b2z (Backward.ok_sx_c10 bc o) | _ => b2z (Undo.ok_sx c o) end
   | 12 => b2z (Window.ok_sx c o)
   | 13 => b2z (Watermark.ok_sx c o)
   | 14 => b2z (Join.ok_sx c o)
